@@ -3,11 +3,14 @@ use dashmap::DashMap;
 use std::ffi::c_void;
 use std::fmt::Debug;
 
+/// A type-erased value: the address of its box and the function that drops it.
+type Slot = (usize, unsafe fn(usize));
+
 /// todo provide macro like [`std::thread_local`]
 /// A struct for coroutines handles local args.
 #[repr(C)]
 #[derive(Debug, Default)]
-pub struct CoroutineLocal<'c>(DashMap<&'c str, (usize, unsafe fn(usize))>);
+pub struct CoroutineLocal<'c>(DashMap<&'c str, Slot>);
 
 /// Drop the type-erased value behind `ptr`.
 unsafe fn drop_value<V>(ptr: usize) {
